@@ -10,6 +10,7 @@ def run(ctx):
     ctx.rule("R-TIMER-ONESHOT", "a callback not returning True is removed", floor=1)
     ctx.rule("R-WAKE", "add_timer and remove_timer wake the job thread", floor=2)
     ctx.rule("R-LIVE-CHECK", "snapshot dispatch re-checks liveness; job-side removal tolerates concurrent removal", floor=1)
+    ctx.rule("R-SLEEP-FRESH", "the job thread's sleep is computed against a clock reading taken after the callbacks", floor=1)
     ecu.iter_mut(ctx)
     ecu.remove_all(ctx)
     ecu.timer_rules(ctx)
